@@ -622,3 +622,43 @@ def judge_load(c):
 
 
 JUDGES["load"] = judge_load
+
+
+def judge_batch(c):
+    """C16 on the implementation: every sample of a batch gets the result it gets alone, also under
+    permutation and sub-selection; exact for the integer-valued generated graphs, up to rounding
+    (relative 1e-4, TESTING) for the float sample models"""
+    impl = c["impl"]
+    stream = (c.get("stream") or "").split(":")[0]
+    key = ("batch", c.get("stream"), impl["status"])
+    if impl["status"] != "ok":
+        n = (c["p"]["inputs"][0]["shape"][c["p"]["inputs"][0]["axis"]])
+        return J(corr="skip", verdict="violates", tag=f"batch.{c.get('stream')}.{impl['status']}", what=f"batch of {n} could not be evaluated: {impl.get('msg','')[:120]}", key=key)
+    r = impl["extra"]
+    key = ("batch", c.get("stream"), r["n"])
+    if r.get("problem"):
+        return J(corr="skip", verdict="violates", tag=f"batch.{c.get('stream')}.shape", what=r["problem"][:160], key=key)
+    if c["p"].get("integer"):
+        if not r["all_bit_equal"]:
+            return J(corr="skip", verdict="violates", tag=f"batch.{c.get('stream')}.wrong", what=f"a sample's result depends on the rest of the batch (max rel diff {r['max_rel_diff']})", key=key)
+    elif r["max_rel_diff"] > 1e-4:
+        return J(corr="skip", verdict="violates", tag=f"batch.{c.get('stream')}.wrong", what=f"a sample's result depends on the rest of the batch beyond rounding (max rel diff {r['max_rel_diff']})", key=key)
+    return J(corr="skip", verdict="holds", key=key, trivial=(r["checks"] == 0))
+
+
+JUDGES["batch"] = judge_batch
+
+
+def judge_concurrent(c):
+    """C17 on the implementation: each goroutine's results equal the sequential baseline"""
+    impl = c["impl"]
+    key = ("concurrent", (c.get("stream") or "").split(":")[0], c["p"].get("goroutines"), impl["status"])
+    if impl["status"] != "ok":
+        return J(corr="skip", verdict="violates", tag="concurrent." + impl["status"], what="concurrent run failed: " + impl.get("msg", "")[:120], key=key)
+    r = impl["extra"]
+    if r["mismatches"]:
+        return J(corr="skip", verdict="violates", tag="concurrent.result_differs", what=f"{r['mismatches']} result(s) differ from the sequential baseline: {r.get('detail','')[:160]}", key=key)
+    return J(corr="skip", verdict="holds", key=("concurrent", c.get("stream"), c["p"].get("goroutines")))
+
+
+JUDGES["concurrent"] = judge_concurrent
